@@ -140,22 +140,13 @@ def is_flat(fs):
     return all(('.' not in n and '[' not in n and '{' not in sp) for n, sp, c in fs)
 
 
-def d3_shape(s):
-    """a replacement-field name made of str.isdigit() characters that are not all decimal (D3)"""
-    for m in re.finditer(r'\{([^{}!:.\[]*)', s):
-        n = m.group(1)
-        if n and n.isdigit() and not n.isdecimal():
-            return True
-    return False
-
-
-def d16_shape(s):
-    """a nested field whose [index] contains a brace (D16)"""
+def d25_shape(s):
+    """a nested field whose [index] contains a brace (D25)"""
     return re.search(r':[^{}]*\{[^{}]*\[[^\]]*[{}]', s) is not None
 
 
-def d15_shape(spec):
-    """',' with b/c/o/x/X, or sign / '#' with c (D15)"""
+def d24_shape(spec):
+    """',' with b/c/o/x/X, or sign / '#' with c (D24)"""
     return re.search(r',[bcoxX]$', spec) is not None or re.search(r'[ +\-#].*c$', spec) is not None
 
 
@@ -164,13 +155,12 @@ def oracle(s):
     r = impl(s)
     fs = fields_of(s)
     if r.startswith('crash'):
-        return ('py-crash', 'pybrace.FormatString raised a foreign exception: ' + r,
-                'D3' if (r == 'crash ValueError' and d3_shape(s)) else None)
+        return ('py-crash', 'pybrace.FormatString raised a foreign exception: ' + r, None)
     if not r.startswith('ok'):
         return None
     if fs is None:
         return ('py-accepts-unparsable', 'accepted (%s), but string.Formatter().parse raises ValueError' % r[3:],
-                'D25' if d16_shape(s) else None)
+                'D25' if d25_shape(s) else None)
     if not is_flat(fs) or heavy(s):
         return None
     # arguments with the reported positions, names and types
@@ -195,7 +185,7 @@ def oracle(s):
                 kw[common.dec_str(k[1:])] = v
         c = live_format_class(s, args, kw)
         if c != 'Success':
-            bad_specs = [sp for n, sp, cv in fs if d15_shape(sp)]
+            bad_specs = [sp for n, sp, cv in fs if d24_shape(sp)]
             return ('py-accepted-not-formattable', 'accepted with %s, but %r.format(*%r, **%r) raises %s' % (r[3:], s, args, kw, c),
                     'D24' if bad_specs else None)
     return None
